@@ -51,7 +51,10 @@ RULE = ("histories = one continuous space (legacy mesa.space.ContinuousSpace: 2-
         "shared argument objects, a second unrelated space in the process).  This stream uses multiples of 1/16 and is also "
         "evaluated by the Gallina model; a second, oracle-only stream uses arbitrary binary64 numbers; a third, oracle-only SCALE "
         "stream has populations crossing 100 / 256 / 1000 / 1001 / 1024 / 2048 / 4096 with bulk add / remove / move, radii up to 40x "
-        "an axis, k up to n and float32 / int64 position arrays.  non-trivial = >= 3 "
+        "an axis, k up to n and float32 / int64 position arrays; a fourth, oracle-only USER-CODE stream makes pos / position a "
+        "property or mesa_signals Observable whose handler re-enters the space (queries, moves / removals / placements of other "
+        "agents) or raises to veto, on ContinuousSpaceAgent subclasses overriding position / remove and on user subclasses of "
+        "both spaces (user code is an input the Coq model does not have: implementation + oracle only).  non-trivial = >= 3 "
         "executed operations of which one is a query with a non-empty answer; distinct = by SHA1 of the history")
 TRUSTED_BASE = [
     "Coq 8.16.1 kernel (coqc); vm_compute used for the Examples, the finite facts and for evaluating the model in the correspondence",
@@ -384,9 +387,21 @@ def gen_cases(rng, tier):
         cases.append(_mk_float(rng, "legacy" if i % 5 < 2 else "exp"))
     # SCALE stream (oracle only): populations crossing 100 / 256 / 1000 / 1001 / 1024 / 2048 / 4096, bulk add / remove / move,
     # radii from tiny to larger than the space, k crossing thresholds up to n, rare position types
+    # USER-CODE stream (oracle only): pos / position as property or Observable whose handler re-enters the space or vetoes,
+    # agent subclasses overriding position / remove, user subclasses of the spaces
+    for i in range(70 if tier == "quick" else 1500):
+        cases.append(_mk_user(rng, "legacy" if i % 2 == 0 else "exp"))
     for i in range(12 if tier == "quick" else 120):
         cases.append(_mk_scale(rng, "legacy" if i % 3 == 2 else "exp", big=(i % 3 == 0)))
     return cases
+
+
+def _user_sweep(n_cases):
+    import random
+
+    rng = random.Random(20261001)
+    for i in range(n_cases):
+        yield _mk_user(rng, "legacy" if i % 2 == 0 else "exp")
 
 
 def _scale_sweep(n_cases):
@@ -400,6 +415,7 @@ def _scale_sweep(n_cases):
 def enumerate_cases(tier, broken=False):
     if broken or tier == "thorough":
         yield from _scale_sweep(40 if tier == "quick" else 80)
+        yield from _user_sweep(400 if tier == "quick" else 1200)
     yield from _enumerate_small(tier, broken)
 
 
@@ -614,6 +630,8 @@ def run_impl(case):
 
     with warnings.catch_warnings():
         warnings.simplefilter("ignore")
+        if case.get("user"):
+            return _run_user(case)
         if case.get("scale"):
             return _run_scale(case)
         if case.get("float"):
@@ -2057,6 +2075,441 @@ def _run_scale(case):
     return {"obs": obs, "failures": list(fails), "model": False}
 
 
+# ------------------------------------------------------------------ USER-CODE stream (oracle only)
+# Wave-10 lesson: user code runs in the middle of a library operation.  Both spaces ASSIGN an attribute of the agent
+# (legacy: agent.pos; experimental: the position property), so a user may make it a property, a mesa_signals Observable,
+# or override position / remove in a ContinuousSpaceAgent subclass - and that code may re-enter the space (a range query,
+# a move / removal / placement of ANOTHER agent) or raise to veto the change (the caller catches it and carries on).
+# Histories: dyadic numbers; an operation may carry a hook  [when, action...]  that the agent's user code executes once:
+#   when = "pre" (before the new value is stored) | "post" (after);  action = ["query", q, r] | ["move", b, p] |
+#   ["remove", b] | ["place", b, p] | ["raise", <exception name>] (pre only, moves / sets / remove() overrides only).
+# The spaces themselves are user subclasses (extra constructor argument, overridden public methods calling super()).
+# Oracle = the statement on what happens NEXT: space.agents and every reported position after every top-level operation,
+# nested and top-level range queries against the positions the agents report at that moment, a final sweep of range
+# queries around every agent.  Only what HEAD does is demanded: no veto inside place_agent / remove_agent of the legacy space
+# (HEAD leaves the agent half registered - reported as a finding, see reports/g10.md), no range query from a post-store
+# hook of a legacy move (HEAD patches its cache after the assignment), no range query from a pre-store hook of a placement.
+USER_EXC = ["ValueError", "KeyError", "IndexError", "StopIteration", "AttributeError", "TypeError", "RuntimeError"]
+
+
+def _mk_user(rng, space):
+    nd = 2 if space == "legacy" else rng.choice([2, 2, 3])
+    torus = rng.random() < 0.5
+    bounds = _bounds(rng, nd)
+    bounds = [[lo, hi if hi - lo >= 16 else lo + 16] for lo, hi in bounds]
+    case = {"space": space, "user": True, "bounds": bounds, "torus": torus, "subspace": rng.random() < 0.7}
+    if space == "exp":
+        case["cap"] = rng.choice([0, 1, 2, 3, 10])
+    kinds = {}
+    ops = []
+    placed = {}
+    nxt = 1
+
+    def inside():
+        return _point(rng, bounds, style=rng.choice(["grid", "any"]))
+
+    def target():
+        p = _point(rng, bounds, outside=torus and rng.random() < 0.3)
+        if not torus and space == "legacy":
+            p = [min(x, hi - 1) for (lo, hi), x in zip(bounds, p)]
+        return p
+
+    def wrapped(p):
+        if space == "legacy":
+            return p if _inside_half(bounds, p) else [lo + (x - lo) % (hi - lo) for (lo, hi), x in zip(bounds, p)]
+        return p if _inside_closed(bounds, p) else [lo + (x - lo) % (hi - lo) for (lo, hi), x in zip(bounds, p)]
+
+    def hook(kind, a):
+        """a hook for a top-level operation `kind` on agent a (None = no user action this time)"""
+        if kinds.get(a, "plain") == "plain" or rng.random() < 0.3:
+            return None
+        others = [b for b in placed if b != a]
+        when = rng.choice(["pre", "post"])
+        if kinds[a] == "obs":
+            when = "pre"                      # an Observable notifies before it stores
+        acts = []
+        if kind in ("move", "set", "remove") and when == "pre":
+            acts += [["raise", rng.choice(USER_EXC)]] * 2 if not (space == "legacy" and kind == "remove") else []
+        q = list(placed[a]) if a in placed and rng.random() < 0.6 else inside()
+        can_query = not (space == "legacy" and ((kind == "move" and when == "post") or (kind == "place" and when == "pre")))
+        if can_query:
+            acts += [["query", q, rng.choice([8, 16, 24, 48])]] * 3
+        if others and not (space == "legacy" and kind == "place" and when == "pre"):
+            b = rng.choice(others)
+            acts.append(["move", b, target()])
+            acts.append(["remove", b])
+        if not (space == "legacy" and kind == "place" and when == "pre"):
+            acts.append(["place", "new", target()])
+        if not acts:
+            return None
+        return [when] + rng.choice(acts)
+
+    def apply_hook(h):
+        nonlocal nxt
+        if h is None:
+            return
+        act = h[1]
+        if act == "move":
+            placed[h[2]] = wrapped(h[3])
+        elif act == "remove":
+            placed.pop(h[2], None)
+        elif act == "place":
+            h[2] = nxt
+            kinds[nxt] = "plain"
+            placed[nxt] = wrapped(h[3])
+            nxt += 1
+
+    nops = rng.randint(5, 16)
+    while len(ops) < nops:
+        r = rng.random()
+        n = len(placed)
+        if r < 0.25 or n == 0:
+            if n >= 8:
+                continue
+            a = nxt
+            nxt += 1
+            kinds[a] = rng.choice(["plain", "prop", "prop", "obs"] if space == "legacy" else ["plain", "sub", "sub"])
+            p = target()
+            h = hook("place" if space == "legacy" else "add", a)
+            if h and (h[1] == "raise" or (space == "exp" and h[0] == "pre")):
+                h = None      # creation is never vetoed; before its first assignment an experimental agent has no position yet
+            ops.append(["place" if space == "legacy" else "add", a, p, h])
+            placed[a] = wrapped(p)
+            apply_hook(h)
+        elif r < 0.6:
+            a = rng.choice(list(placed))
+            p = target()
+            h = hook("move" if space == "legacy" else "set", a)
+            ops.append(["move" if space == "legacy" else "set", a, p, h])
+            if not (h and h[1] == "raise"):
+                placed[a] = wrapped(p)
+            apply_hook(h)
+            if h and h[1] == "remove" and h[2] == a:
+                placed.pop(a, None)
+        elif r < 0.7:
+            a = rng.choice(list(placed))
+            h = hook("remove", a)
+            if h and h[1] in ("move", "remove") and h[2] == a:
+                h = None
+            ops.append(["remove", a, h])
+            if not (h and h[1] == "raise"):
+                placed.pop(a, None)
+            apply_hook(h)
+        else:
+            q = list(rng.choice(list(placed.values()))) if placed and rng.random() < 0.6 else inside()
+            q = [min(max(x, lo), hi) for (lo, hi), x in zip(bounds, q)]
+            ops.append(["nbrs" if space == "legacy" else "radius", q, rng.choice([0, 8, 16, 32, 64])])
+    case["kinds"] = {str(k): v for k, v in kinds.items()}
+    case["ops"] = ops
+    return case
+
+
+def _run_user(case):
+    import builtins
+
+    import mesa
+    import numpy as np
+    from mesa.experimental.mesa_signals import HasObservables, Observable
+
+    sp = case["space"]
+    legacy = sp == "legacy"
+    bounds = [tuple(b) for b in case["bounds"]]
+    nd = len(bounds)
+    torus = case["torus"]
+    kinds = {int(k): v for k, v in case.get("kinds", {}).items()}
+    K = f"C10/user/{sp}"
+    fails = _Fail()
+    obs = []
+    state = {"dead": False, "busy": False, "i": 0}
+    shadow = {}          # label -> scaled position the agent must report (insertion ordered)
+    objs = {}
+    model = mesa.Model(seed=1)
+
+    def fail(key, what):
+        if not state["dead"]:
+            fails.add(key, state["i"], what)
+        state["dead"] = True
+
+    def F(p):
+        return tuple(v / 16.0 for v in p)
+
+    def norm(p):
+        """the statement: where an agent assigned p is; None = rejected"""
+        if (_inside_half if legacy else _inside_closed)(bounds, p):
+            return list(p)
+        if not torus:
+            return None
+        return [lo + (x - lo) % (hi - lo) for (lo, hi), x in zip(bounds, p)]
+
+    # ---- user subclasses of the spaces
+    if legacy:
+        from mesa.space import ContinuousSpace as Base
+
+        class UserSpace(Base):
+            """a user subclass: extra constructor argument, public methods overridden with super() calls"""
+
+            def __init__(self, *a, tag="mine", **kw):
+                super().__init__(*a, **kw)
+                self.tag, self.calls = tag, 0
+
+            def move_agent(self, agent, pos):
+                self.calls += 1
+                return super().move_agent(agent, pos)
+
+            def place_agent(self, agent, pos):
+                self.calls += 1
+                return super().place_agent(agent, pos)
+
+            def get_neighbors(self, pos, radius, include_center=True):
+                return list(super().get_neighbors(pos, radius, include_center))
+        (x0, x1), (y0, y1) = bounds
+        cls = UserSpace if case.get("subspace") else Base
+        space = cls(x1 / 16.0, y1 / 16.0, torus, x0 / 16.0, y0 / 16.0)
+    else:
+        from mesa.experimental.continuous_space import ContinuousSpace as Base
+        from mesa.experimental.continuous_space import ContinuousSpaceAgent
+
+        class UserSpace(Base):
+            """a user subclass: extra constructor argument, a public method overridden with a super() call"""
+
+            def __init__(self, dimensions, tag="mine", **kw):
+                super().__init__(dimensions, **kw)
+                self.tag = tag
+
+            def get_agents_in_radius(self, point, radius=1):
+                agents, dists = super().get_agents_in_radius(point, radius)
+                return list(agents), dists
+        cls = UserSpace if case.get("subspace") else Base
+        space = cls(np.array([[lo / 16.0, hi / 16.0] for lo, hi in bounds]), torus=torus, random=model.random, n_agents=case["cap"])
+
+    # ---- what the user code does when it runs
+    def reported():
+        out = {}
+        for o in space.agents:
+            p = o.pos if legacy else o.position
+            out[o._label] = None if p is None else [_sc(v, []) for v in p]
+        return out
+
+    def range_query(q, r):
+        if legacy:
+            return sorted(o._label for o in space.get_neighbors(F(q), r / 16.0))
+        return sorted(o._label for o in space.get_agents_in_radius(np.array(F(q)), r / 16.0)[0])
+
+    def check_query(q, r, where):
+        got = range_query(q, r)
+        rep_ = reported()
+        want = sorted(a for a, p in rep_.items() if p is not None and _dist2(torus, bounds, p, q) <= r * r)
+        if got != want:
+            fail(f"{K}/range-query/wrong-agents", f"{where}: range query around x16 {q} radius x16 {r} returned {got}; the agents whose REPORTED position is within the radius are {want} (reported x16 {rep_})")
+
+    def new_agent(a):
+        kind = kinds.get(a, "plain")
+        if legacy:
+            o = {"plain": mesa.Agent, "prop": PropAgent, "obs": ObsAgent}[kind](model)
+            if kind == "plain":
+                o.pos = None
+        else:
+            o = {"plain": ContinuousSpaceAgent, "sub": SubAgent}[kind](space, model)
+        o._label = a
+        o._hook = None
+        objs[a] = o
+        return o
+
+    def run_hook(o, when):
+        h = getattr(o, "_hook", None)
+        if h is None or h[0] != when or state["busy"]:
+            return
+        o._hook = None
+        state["busy"] = True        # hooks do not nest
+        try:
+            act = h[1]
+            if act == "raise":
+                raise getattr(builtins, h[2])("vetoed by the user's code")
+            if act == "query":
+                check_query(h[2], h[3], f"inside the {when}-store hook of agent {o._label}")
+            elif act == "move" and h[2] in shadow and h[2] in objs:
+                w = norm(h[3])
+                if w is not None:
+                    if legacy:
+                        space.move_agent(objs[h[2]], F(h[3]))
+                    else:
+                        objs[h[2]].position = list(F(h[3]))
+                    shadow[h[2]] = w
+            elif act == "remove" and h[2] in shadow and h[2] in objs:
+                if legacy:
+                    space.remove_agent(objs[h[2]])
+                else:
+                    objs[h[2]].remove()
+                shadow.pop(h[2], None)
+            elif act == "place" and h[2] not in objs:
+                w = norm(h[3])
+                if w is not None:
+                    b = new_agent(h[2])
+                    if legacy:
+                        space.place_agent(b, F(h[3]))
+                    else:
+                        b.position = list(F(h[3]))
+                    shadow[h[2]] = w
+        finally:
+            state["busy"] = False
+
+    if legacy:
+        class PropAgent(mesa.Agent):
+            """pos is a user property: the setter tells others before / after it stores"""
+
+            @property
+            def pos(self):
+                return getattr(self, "_pos", None)
+
+            @pos.setter
+            def pos(self, value):
+                run_hook(self, "pre")
+                self._pos = value
+                run_hook(self, "post")
+
+        class ObsAgent(mesa.Agent, HasObservables):
+            """pos is a mesa_signals Observable; the handler runs before the new value is stored"""
+
+            pos = Observable()
+
+            def __init__(self, m):
+                super().__init__(m)
+                self.observe("pos", "change", self._on_pos)
+
+            def _on_pos(self, signal):
+                run_hook(self, "pre")
+    else:
+        class SubAgent(ContinuousSpaceAgent):
+            """a ContinuousSpaceAgent subclass overriding position and remove with super() calls"""
+
+            @property
+            def position(self):
+                return ContinuousSpaceAgent.position.fget(self)
+
+            @position.setter
+            def position(self, value):
+                run_hook(self, "pre")
+                ContinuousSpaceAgent.position.fset(self, value)
+                run_hook(self, "post")
+
+            def remove(self):
+                run_hook(self, "pre")
+                super().remove()
+                run_hook(self, "post")
+
+    def check_state(where):
+        if state["dead"]:
+            return
+        rep_ = reported()
+        if list(rep_) != list(shadow):
+            fail(f"{K}/agents/wrong-set" if sorted(rep_) != sorted(shadow) else f"{K}/agents/order",
+                 f"{where}: space.agents lists {list(rep_)}, placed and not removed (in order): {list(shadow)}")
+            return
+        for a, p in rep_.items():
+            if p is None or not _position_ok(torus, bounds, shadow[a], p):
+                fail(f"{K}/position/wrong-position", f"{where}: agent {a} reports x16 {p}, last accepted assignment x16 {shadow[a]}")
+                return
+            shadow[a] = p
+
+    for i, op in enumerate(case["ops"]):
+        state["i"] = i
+        kind = op[0]
+        try:
+            if kind in ("place", "add"):
+                _, a, p, h = op
+                w = norm(p)
+                if a in objs or w is None or len(p) != nd:
+                    obs.append([-2])
+                    continue
+                o = new_agent(a)
+                o._hook = h
+                shadow[a] = w          # (registered before the user code runs: the hook may look at it)
+                if legacy:
+                    space.place_agent(o, F(p))
+                else:
+                    o.position = list(F(p))
+                o._hook = None
+                check_state(f"after {op}")
+                obs.append([0, len(shadow)])
+            elif kind in ("move", "set"):
+                _, a, p, h = op
+                w = norm(p)
+                if a not in shadow or a not in objs or len(p) != nd:
+                    obs.append([-2])
+                    continue
+                o = objs[a]
+                o._hook = h if kinds.get(a, "plain") != "plain" else None
+                veto = o._hook is not None and o._hook[1] == "raise"
+                try:
+                    if legacy:
+                        space.move_agent(o, F(p))
+                    else:
+                        o.position = list(F(p))
+                except Exception as e:  # noqa: BLE001
+                    o._hook = None
+                    if veto and type(e).__name__ == h[2] or (w is None and type(e) in (Exception, ValueError)):
+                        check_state(f"after the rejected {op} ({type(e).__name__})")     # nothing may have changed
+                        obs.append([-1, len(shadow)])
+                        continue
+                    raise
+                o._hook = None
+                if w is None:
+                    fail(f"{K}/out-of-bounds-accepted", f"{op} was accepted")
+                elif veto and w is not None and (legacy and not _inside_half(bounds, p) and not torus):
+                    pass
+                else:
+                    if a in shadow:
+                        shadow[a] = w
+                check_state(f"after {op}")
+                obs.append([0, len(shadow)])
+            elif kind == "remove":
+                _, a, h = op
+                if a not in shadow or a not in objs:
+                    obs.append([-2])
+                    continue
+                o = objs[a]
+                o._hook = h if kinds.get(a, "plain") != "plain" else None
+                veto = o._hook is not None and o._hook[1] == "raise"
+                try:
+                    if legacy:
+                        space.remove_agent(o)
+                    else:
+                        o.remove()
+                except Exception as e:  # noqa: BLE001
+                    o._hook = None
+                    if veto and type(e).__name__ == h[2]:
+                        check_state(f"after the vetoed {op}")
+                        obs.append([-1, len(shadow)])
+                        continue
+                    raise
+                o._hook = None
+                shadow.pop(a, None)
+                objs.pop(a, None)
+                check_state(f"after {op}")
+                obs.append([0, len(shadow)])
+            elif kind in ("nbrs", "radius"):
+                check_query(op[1], op[2], f"{op}")
+                check_state(f"after {op}")
+                obs.append([0, len(shadow)])
+            else:
+                raise ValueError(kind)
+        except Exception as e:  # noqa: BLE001
+            fail(f"{K}/{kind}/raises", f"{op} raised {type(e).__name__}: {e}  (agents: {list(shadow)})")
+            obs.append([-1, 99])
+    # final sweep: every agent's neighbourhood at three radii, from the reported positions
+    state["i"] = len(case["ops"]) - 1
+    try:
+        if not state["dead"]:
+            for a, p in list(shadow.items()):
+                q = [min(max(x, lo), hi) for (lo, hi), x in zip(bounds, p)]
+                for r in (0, 16, 40):
+                    if not state["dead"]:
+                        check_query(q, r, "final sweep")
+    except Exception as e:  # noqa: BLE001
+        fail(f"{K}/final-sweep/raises", f"range query raised {type(e).__name__}: {e}")
+    return {"obs": obs, "failures": list(fails), "model": False}
+
+
 # ------------------------------------------------------------------ model side
 def _pt(p):
     return L.zlist(p)
@@ -2068,7 +2521,7 @@ def _bs(bounds):
 
 def coq_case(case):
     ops = []
-    if case.get("float") or case.get("scale"):   # oracle-only streams: nothing for the scaled-integer model to evaluate
+    if case.get("float") or case.get("scale") or case.get("user"):   # oracle-only streams: nothing for the scaled-integer model to evaluate
         return "(CLegacy {| lc_bounds := []; lc_torus := false |} [])"
     if case["space"] == "legacy":
         for op in case["ops"]:
@@ -2129,14 +2582,14 @@ def coq_case(case):
 
 
 def op_kinds(case):
-    tag = case["space"] + ("-scale" if case.get("scale") else "-float" if case.get("float") else "")
+    tag = case["space"] + ("-user" if case.get("user") else "-scale" if case.get("scale") else "-float" if case.get("float") else "")
     return [f"{tag}/{op[0]}" for op in case["ops"]]
 
 
 def nontrivial(case):
     obs = case.get("_obs", [])
     done = [o for o in obs if o and o[0] != -2]
-    if case.get("float") or case.get("scale"):
+    if case.get("float") or case.get("scale") or case.get("user"):
         return len(done) >= 3 and any(len(o) > 1 and o[1] > 0 for o in done)
     queries = {"nbrs", "radius", "knear", "dists", "diffs", "nbr_radius", "nbr_near", "dist", "heading", "pair",
                "dists_of", "diffs_of"}
